@@ -256,10 +256,10 @@ def run_case(case, ctx):
                   lambda: "shape %r for %d selected trains" % (Mx.shape, len(sel)))
         diag = 1.0 if meas == "SYNC" else 0.0
         for a in range(len(sel)):
-            ctx.check(Mx[a, a] == diag, "matrix_diagonal",
+            ctx.check(abs(Mx[a, a] - diag) <= 1e-12, "matrix_diagonal",
                       lambda: "M[%d,%d]=%r" % (a, a, Mx[a, a]))
             for b in range(a + 1, len(sel)):
-                ctx.check(Mx[a, b] == Mx[b, a], "matrix_symmetric",
+                ctx.check(abs(Mx[a, b] - Mx[b, a]) <= 1e-12, "matrix_symmetric",
                           lambda: "M[%d,%d]=%r M[%d,%d]=%r" % (a, b, Mx[a, b], b, a, Mx[b, a]))
                 key = (min(sel[a], sel[b]), max(sel[a], sel[b]))
                 ctx.check(ps.close(Mx[a, b], Fr(float(pval[key])), tol), "matrix_entry",
